@@ -56,13 +56,14 @@ def build_engine(ctx):
     return common.build_full(ctx, "h_engine", ["engine.cpp"])
 
 
-def run(ctx, prop, props_module, props_file, case_gens, trusted, assume, rule, extra_cov=None, exhaustive=None):
+def run(ctx, prop, props_module, props_file, case_gens, trusted, assume, rule, extra_cov=None, exhaustive=None, line_monitor=None):
     """case_gens: list of (name, count_quick, count_thorough, fn(rng) -> lines)"""
     common.proof_side(ctx, props_module, props_file)
     if ctx.tier == "thorough":
         common.leanchecker(ctx, props_module)
     exe = build_engine(ctx)
     d = Diff(ctx, prop, exe, AREA)
+    d.line_monitor = line_monitor
     bad = d.run_batch(corpus_cases(ctx.prop_id))
     quick = ctx.tier == "quick"
     for name, nq, nt, fn in case_gens:
@@ -88,6 +89,7 @@ def run(ctx, prop, props_module, props_file, case_gens, trusted, assume, rule, e
     cov = {
         "evaluations": d.cases, "distinct_nontrivial": len(d.distinct), "rule": rule,
         "op_lines": d.lines, "op_histogram": d.hist, "exhaustive": False, "skipped_after_failures": d.skipped,
+        "impl_lines_checked_by_monitor": d.monitor_lines,
     }
     if extra_cov:
         cov.update(extra_cov)
